@@ -303,6 +303,13 @@ def makeBlocks(case):
             b.p.massHmBOL = (b.p.massHmBOL or 0.0) * R.uniform(0.5, 1.5)
             if R.random() < 0.6:
                 b.setHeight(b.getHeight() * R.uniform(0.4, 2.0))  # volumes (hence weights) differ between members
+            if case.get("overlap"):
+                # the fuel is wider than the clad's bore (hot): the sodium bond between them gets a NEGATIVE area / volume / mass,
+                # which armi admits for non-solid materials (Component._checkNegativeArea); same sign in every member
+                bond = [c for c in b if c.name == "bond"]
+                if bond and b.getComponent(Flags.FUEL) is not None:
+                    b.getComponent(Flags.FUEL).setDimension("od", bond[0].getDimension("od") * R.uniform(1.002, 1.02))
+                    b.clearCache()
             for c in b:
                 nd = {}
                 for n, d in c.p.numberDensities.items():
@@ -374,7 +381,7 @@ def repValues(case, cls, cands, members, param):
             aw = [wi * c.getArea() for wi, c in zip(w, cs_k)]
             for n in names:
                 vals = [c.p.numberDensities.get(n, 0.0) for c in cs_k]
-                out["dens"][k, n] = sum(a * v for a, v in zip(aw, vals)) / sum(aw) if sum(aw) > 0 else 0.0
+                out["dens"][k, n] = sum(a * v for a, v in zip(aw, vals)) / sum(aw) if sum(aw) != 0 else 0.0  # weights of one sign (negative for an overlapped gap): still a mean
                 out["range"][k, n] = (min(vals), max(vals))
         out["mode"] = "component"
     elif case.get("byComponent") and cls is not xsgm.MedianBlockCollection and similar(cands):
@@ -391,7 +398,7 @@ def repValues(case, cls, cands, members, param):
             mass = [c.getMass() for c in cs_k]
             den = sum(a * m for a, m in zip(wh, mass))
             temps = [c.temperatureInC for c in cs_k]
-            out["ctemp"][k] = (sum(a * m * t for a, m, t in zip(wh, mass, temps)) / den) if den > 0 else sum(temps) / len(temps)
+            out["ctemp"][k] = (sum(a * m * t for a, m, t in zip(wh, mass, temps)) / den) if den != 0 else sum(temps) / len(temps)
             out["range"]["T", k] = (min(temps), max(temps))
         out["mode"] = "component"
     else:
@@ -408,6 +415,12 @@ def repValues(case, cls, cands, members, param):
         out["temp"][n] = nvt / nv if nv > 0 else 0.0
         ts = [t[0] / t[1] for t in terms if t[1] > 0]
         out["range"]["T", n] = (min(ts), max(ts)) if ts else (0.0, 0.0)
+        if any(t[1] < 0 for t in terms):
+            # a member in which the nuclide sits mostly in a component of NEGATIVE volume (overlapped bond): the weights
+            # n x V of the members then differ in sign, the mean is not a convex combination and no range follows from it
+            # (if they are all negative it is one again)
+            ts = [t[0] / t[1] for t in terms if t[1] < 0]
+            out["range"]["T", n] = (min(ts), max(ts)) if all(t[1] < 0 for t in terms) else (-math.inf, math.inf)
 
     def hmMean(blocks):
         hw = [(b.p.massHmBOL or 0.0) * weightOf(b, param) / b.getVolume() for b in blocks]
@@ -699,6 +712,8 @@ def genCases():
         cases.append({"seed": seed, "n": rng.randint(1, nmax), "pool": pool, "types": rng.choice([["A"], ["A", "B"], ["A", "B", "C"], ["B", "c"]]), "buBounds": bu, "tempBounds": tb,
                       "repr": rep, "byComponent": (not cyl and rep != "Median" and rng.random() < 0.5), "ductHet": cyl and rng.random() < 0.5, "valid": valid,
                       "flux": rng.choice(["zero", "positive", "positive", "mixed"]), "agree": rng.random() < 0.15})
+        if pool == "same" and len(cases) % 5 == 0:
+            cases[-1]["overlap"] = True  # every member has a sodium bond of negative area (drawn without consuming rng: the other cases are unchanged)
     return cases
 
 
